@@ -555,6 +555,13 @@ func roundTrip(c Case) *hx.Failure {
 		done("not-formatted")
 		return nil
 	}
+	// printing the same tree once more gives the same text (the printer keeps nothing between calls)
+	var p1b string
+	var errb error
+	if pf := hx.Guard(func() { p1b, errb = parser.PrettyPrint(t1) }); pf != nil || errb != nil || p1b != p1 {
+		done("second-print-differs")
+		return hx.Failf("again:print-differs", "PrettyPrint of the SAME tree (of %q) a second time: panic=%v err=%v\nfirst  %q\nsecond %q", clip(src), pf != nil, errb, clip(p1), clip(p1b))
+	}
 	t2, err, pf := parse(p1)
 	if pf != nil {
 		done("reparse-panic")
